@@ -193,7 +193,7 @@ impl Default for PayOpts {
 
 // size-field boundaries (2^(7k)-1 ± 1), the default buffer length minus a header (65533..65537) and
 // powers of two above it (buffer growth), 2^21 ± 1
-const LEN_CLASSES: [usize; 27] = [0, 1, 2, 126, 127, 128, 129, 255, 256, 16382, 16383, 16384, 16385, 65530, 65533, 65534, 65535, 65536, 65537, 131071, 131072, 131073, 262144, 2097150, 2097151, 2097152, 2097153];
+const LEN_CLASSES: [usize; 30] = [0, 1, 2, 126, 127, 128, 129, 255, 256, 16382, 16383, 16384, 16385, 65530, 65533, 65534, 65535, 65536, 65537, 131071, 131072, 131073, 262144, 1048575, 1048576, 1048577, 2097150, 2097151, 2097152, 2097153];
 
 pub fn gen_len(rng: &mut Rng, p: &PayOpts) -> usize {
     if rng.below(100) < p.boundary_pct {
